@@ -78,6 +78,7 @@ def act_to_cmd(a):
     if n == "Probe": return "Probe %d %s" % (t, a["op"])
     if n == "BinaryRead": return "BinaryRead %s %d %d" % (a["op"], x, y)
     if n == "Factory": return "Factory %d %s %d %d %d" % (t, a["op"], a["d"], a["c"], a.get("fail", 0))
+    if n == "Burst": return "Burst %d %d" % (a["d"], a["c"])
     if n == "AssignExpr":
         return "AssignExpr %d %s %s %d %d %d %d %d %d %d" % (t, a["w"], a["op"], x, y, 1 if a["arv"] else 0, 1 if a["brv"] else 0,
                                                             a["c"], a["fail"], a.get("flags", 0))
